@@ -41,6 +41,9 @@ class Mixed:
         self.with_errloc = errloc
         self.bad_rate = bad_rate
         self.r = rnd
+        # C15 histories: one parsing option per history; files are generated from THAT option's grammar (the property is
+        # silent about files outside it)
+        self.optmode = rnd.choice(["python", "join"]) if ops and "readconfig_opt" in ops else "none"
         self.R = ROOT + "/mx%d" % (idx % 16)
         self.script = ["rm %s" % hx(self.R)]
         self.conv = [None]
@@ -61,7 +64,7 @@ class Mixed:
     def op_file(self):
         from gen import gram
         f = self.r.choice(FILES)
-        g = gram.random_file(self.r, self.r.randint(1, 8), "none", self.bad_rate, D="=", C="#")
+        g = gram.random_file(self.r, self.r.randint(1, 8), self.optmode, self.bad_rate, D="=", C="#")
         self.files.add(f)
         self.add("file %s %s" % (hx(self.R + f), hx(file_bytes(g["lines"]))), None)
         lines = g["lines"]
@@ -78,9 +81,24 @@ class Mixed:
     def op_readdirs(self, h):
         self.add("readdirs %d %s %s %s %s x3d x23" % (h, hx(self.R + "/usr/etc"), hx(self.R + "/etc"), hx("cfg"), hx(self.r.choice(["conf", ".conf"]))),
                  lambda ev, root, h=h: [{"e": "readdirs", "h": h, "dirs": [codes("/usr/etc"), codes("/etc")], "name": codes("cfg"), "sfx": codes("conf"),
-                                         "delim": [61], "comment": [35], "rc": ev["rc"]}])
+                                         "delim": [61], "comment": [35], "python": False, "join": False, "rc": ev["rc"]}])
         self.live.add(h)
         self.errloc()
+
+    def op_readconfig_opt(self, h):
+        """layered read through an option object: PYTHON_STYLE / JOIN_SAME_ENTRIES apply to the main file AND to every drop-in"""
+        py = (self.optmode == "python") if self.optmode != "none" else self.r.random() < 0.5
+        opt = ("PYTHON_STYLE=1" if py else "JOIN_SAME_ENTRIES=1") + ";PARSING_DIRS=%s/usr/etc:%s/etc" % (self.R, self.R)
+        self.script.append("newopt %d %s" % (h, hx(opt)))
+        self.conv.append(lambda ev, root: [])
+        self.add("readconfig %d - - %s %s x3d x23" % (h, hx("cfg"), hx("conf")),
+                 lambda ev, root, h=h, py=py: [{"e": "readdirs", "h": h, "dirs": [codes("/usr/etc"), codes("/etc")], "name": codes("cfg"), "sfx": codes("conf"),
+                                               "delim": [61], "comment": [35], "python": py, "join": not py, "rc": ev["rc"]}])
+        # a failed read leaves the caller's option object in place: release it so that the model (Null after failure) and the
+        # library agree again
+        self.script.append("onerr_free %d" % h)
+        self.conv.append(None)
+        self.live.add(h)
 
     def errloc(self):
         if not self.with_errloc:
@@ -137,6 +155,8 @@ class Mixed:
                 self.op_read(free[0])
             elif x < 0.32 and free and allow("readdirs"):
                 self.op_readdirs(free[0])
+            elif x < 0.37 and free and allow("readconfig_opt"):
+                self.op_readconfig_opt(free[0])
             elif x < 0.38 and free and allow("new"):
                 self.op_new(free[0])
             elif x < 0.58 and live and allow("set"):
@@ -163,7 +183,7 @@ class Mixed:
         it = iter(evs)
         for line, conv in zip(self.script, self.conv):
             op = line.split()[0]
-            if op in ("file", "mkdir", "rm"):
+            if op in ("file", "mkdir", "rm", "onerr_free"):
                 continue
             ev = next(it, None)
             if ev is None:
@@ -180,6 +200,7 @@ OPS = {   # every property exercises the root specification with the calls IT ta
     "C03": {"read", "new", "set", "get", "merge"},
     "C01": {"readdirs", "get"},
     "C13": {"read", "readdirs"},
+    "C15": {"readconfig_opt", "get"},
     "ALL": None,
 }
 
@@ -193,7 +214,7 @@ def run_mixed(exe, rnd, n, verdict, pid, nops=(10, 60), comments=False):
         out = res.get(i)
         if out is None or out["crash"]:
             nev = len((out or {}).get("ev", []))
-            printing = [l for l in h.script if l.split()[0] not in ("file", "mkdir", "rm")]
+            printing = [l for l in h.script if l.split()[0] not in ("file", "mkdir", "rm", "onerr_free")]
             culprit = printing[nev] if nev < len(printing) else "?"
             verdict.violation("%s:mixed:crash:%s" % (pid, culprit.split()[0]), {"kind": "script", "script": h.script, "crash": (out or {}).get("crash")},
                               "mixed API history crashed at `%s`\n%s" % (culprit[:120], (out or {}).get("crash", "")[:900]))
